@@ -150,6 +150,12 @@ def run_config(ctx, r, L, R, order, scheds, nsteps, *, use_eval, random_actions,
     env = training.wrap(env0, episode_length=L, action_repeat=R)
   elif order == 'create':
     env = training.AutoResetWrapper(training.VmapWrapper(training.EpisodeWrapper(env0, L, R)))
+  elif order == 'registry':
+    # the public factory: envs.create(name, episode_length, action_repeat, auto_reset, batch_size) splits ONE key itself,
+    # so which schedule a member follows is read back from its state after reset
+    from brax import envs as brax_envs
+    brax_envs.register_environment('verif_scripted', lambda **kw: Scripted(table))
+    env = brax_envs.create('verif_scripted', episode_length=L, action_repeat=R, auto_reset=True, batch_size=B)
   elif order == 'randomized':
     gv = jp.asarray(np.asarray(gains, np.float32))
 
@@ -164,7 +170,10 @@ def run_config(ctx, r, L, R, order, scheds, nsteps, *, use_eval, random_actions,
   keys = jp.asarray(np.stack([np.full(B, 12345, np.uint32), np.arange(B, dtype=np.uint32)], 1))
   reset = jax.jit(env.reset)
   step = jax.jit(env.step)
+  if order == 'registry':
+    keys = jax.random.PRNGKey(r.randint(0, 10**6))
   state = reset(keys)
+  member_sched = np.asarray(state.pipeline_state['m'])      # schedule index each member actually follows
   rec = [_snapshot(state)]
   acts = []
   rr = np.random.RandomState(r.randint(0, 2**31 - 1))
@@ -195,7 +204,7 @@ def run_config(ctx, r, L, R, order, scheds, nsteps, *, use_eval, random_actions,
                         ttrunc=np.asarray(tr.extras['state_extras']['truncation'][i]))
   traces = []
   for m in range(B):
-    hdr = {'L': L, 'R': R, 'sched': [int(x) for x in scheds[m]], 'gain': int(gains[m]) if gains is not None else 1,
+    hdr = {'L': L, 'R': R, 'sched': [int(x) for x in scheds[int(member_sched[m])]], 'gain': int(gains[m]) if gains is not None else 1,
            'eval': 1 if use_eval else 0, 'order': order, 'label': label}
     traces.append(_events_from_run(hdr, rec, m, B))
   return traces
@@ -294,11 +303,11 @@ def run(ctx):
   ]
   model_check(ctx, maxl, maxr, slen)
   scheds = [list(s) for s in itertools.product([0, 1], repeat=slen)]
-  for L, R, order in itertools.product(range(1, maxl + 1), range(1, maxr + 1), ['wrap', 'create']):
+  for L, R, order in itertools.product(range(1, maxl + 1), range(1, maxr + 1), ['wrap', 'create', 'registry']):
     n = 3 * ((L + R - 1) // R) + 1
-    tr = run_config(ctx, r, L, R, order, scheds, n, use_eval=(order == 'wrap'), random_actions=False,
+    tr = run_config(ctx, r, L, R, order, scheds, n, use_eval=(order == 'wrap'), random_actions=(order == 'registry'),
                     label='exhaustive')
-    validate(ctx, tr, f'c15-{order}-L{L}-R{R}')
+    validate(ctx, tr, f'c15-{order}-L{L}-R{R}', invs=INVS if order != 'registry' else [x for x in INVS if x != 'EpisodeReplays'])
   # domain randomisation: per-member gain, schedules shuffled so neighbours differ
   for L, R in ([(3, 2), (4, 1)] if quick else [(l, rr) for l in (2, 3, 5, 6) for rr in (1, 2, 3)]):
     sub = r.sample(scheds, 16)
